@@ -1085,6 +1085,15 @@ fn check_edges(rep: &mut Report, drv: &mut Driver, case: &Case, d: &Dump, input:
     }
 }
 
+/// the use-site form of the context read some constant reaches
+fn reached_ctx_form(items: &[Item]) -> &'static str {
+    let r = reach(items);
+    (0..items.len())
+        .find(|&i| items[i].uses_ctx && (items[i].is_const || (0..items.len()).any(|c| items[c].is_const && r[c][i])))
+        .map(|i| CTX_FORMS[items[i].ctx_form as usize].0)
+        .unwrap_or("?")
+}
+
 fn symbol_class(s: &str) -> &'static str {
     if s.starts_with("::generated::clone_") {
         "generated-clone"
@@ -1258,7 +1267,7 @@ fn run_case(rep: &mut Report, drv: &mut Driver, seed: u64, index: u64) {
     }
     if let (Ok(Ok(())), Expect::Context(k)) = (&checked, &case.expect) {
         // do not go on: the initialiser would be run without a context
-        let form = items.iter().find(|i| i.uses_ctx).map(|i| CTX_FORMS[i.ctx_form as usize].0).unwrap_or("?");
+        let form = reached_ctx_form(items);
         rep.violation(
             "a constant that transitively reads a context variable passed the type checker (its initialiser would run at compile time without a context)",
             &format!("context-accepted:{k}:{form}"),
@@ -1464,7 +1473,11 @@ fn run_case(rep: &mut Report, drv: &mut Driver, seed: u64, index: u64) {
         (0..n).any(|i| !items[i].is_const && r[i][i])
     };
     let compound = items.iter().any(|i| (i.is_const && i.ty != 0) || i.local != 0);
-    let ctxform = items.iter().find(|i| i.uses_ctx).map(|i| CTX_FORMS[i.ctx_form as usize].0).unwrap_or("-");
+    let ctxform = if matches!(case.expect, Expect::Context(_)) {
+        reached_ctx_form(items)
+    } else {
+        items.iter().find(|i| i.uses_ctx).map(|i| CTX_FORMS[i.ctx_form as usize].0).unwrap_or("-")
+    };
     rep.class(format!(
         "{}|{}|c{}f{}e{}|fcycle={}|mods={}|v{}|compound={}|ctx={}",
         describe(&case.expect),
